@@ -13,8 +13,9 @@ PARTIAL = [
     "decoding of the body and header handling belong to C05/C12: the theorems start from the body text (str) handed to TreeBuilder.feed",
     "a data element written without end tag as the LAST child of an aggregate of the same name (<T><T>x</T>) is inherently ambiguous in SGML "
     "and excluded by ok_rendering (no OFX aggregate contains an element of its own name)",
-    "Serialize lemmas are about the code-point text of the writers (html_text / unclosed_text); the UTF-8 layer (utf8_xcr / utf8_strict) is compared "
-    "byte for byte with the implementation by the correspondence run but not the subject of a theorem; unclosed_is_render needs element text escaped (repair C11-3)",
+    "Serialize lemmas are about the code-point text of the writers (html_text / unclosed_text); the UTF-8 layer is the subject of utf8_layer_roundtrip "
+    "for Unicode scalar text (both writers' encoders agree, the reader's strict decoder returns the text; lone surrogates - written as character references by ET.tostring, refused "
+    "by the other writer - are outside it) and is compared byte for byte with the implementation by the correspondence run; unclosed_is_render needs element text escaped (repair C11-3)",
 ]
 MANIFEST = {
     "engine": "Sgml",
